@@ -130,12 +130,24 @@ Fixpoint stop_overlap (cs : amap pconf) (o : obs) (evs : list (tid * event)) : b
        end) || stop_overlap cs (obs_step cs o e) r
   end.
 (* windows_of with the dup bit narrowed; [sub] = the sub-history the window flags were computed from, [full] = the whole prefix *)
+(* F54, stale stop handle: a stop execution (StopProcess / RestartProcess looked the instance up, then lost the CPU) goes
+   on with an instance that has ENDED in the meantime; it reads and writes the status record that the instance shares
+   with its successor (C09_refuted_stale_stop is the model-level witness).  Only concurrency can produce it. *)
+Fixpoint stale_stop (cs : amap pconf) (o : obs) (evs : list (tid * event)) : bool :=
+  match evs with
+  | [] => false
+  | e :: r =>
+      (match snd e with
+       | EStopEnter i _ => o_ended (oi_get o i)
+       | _ => false
+       end) || stale_stop cs (obs_step cs o e) r
+  end.
 Definition windows_narrow (cs : amap pconf) (n : option name) (o : obs) (sub full : list (tid * event)) : list bool :=
   let dup := match n with
              | Some k => w_dup o && (stop_overlap cs (obs0 cs) sub || api_overlap k [] false full)
              | None => w_dup o
              end in
-  [w_zombie o; w_sdlag o; w_commit o; w_late o; w_sdspawn o; dup; w_stale o].
+  [stale_stop cs (obs0 cs) sub; w_zombie o; w_sdlag o; w_commit o; w_late o; w_sdspawn o; dup; w_stale o].
 
 (* runs the full observer; [kept] accumulates (in reverse) the events seen so far together with their name *)
 Fixpoint mon_run_wn (cs : amap pconf) (m : obs -> tid * event -> bool) (o : obs)
